@@ -114,12 +114,25 @@ fn decode_huge(hdr: &[u8]) {
 #[kani::proof]
 #[kani::unwind(12)]
 fn c13_bad_magic() {
-    for (hdr, magic) in [(&b"P1 1 1\n0"[..], *b"P1"), (&b"P7 1 1 255\n"[..], *b"P7"), (&b"Q6 1 1 255\n"[..], *b"Q6"), (&b"\0\0"[..], [0, 0])] {
+    for hdr in [&b"P7 1 1 255\n"[..], &b"Q6 1 1 255\n"[..], &b"\0\0"[..]] {
         assert!(parse_pnm(hdr.iter().copied()).is_err());
-        let _ = magic;
     }
     assert!(parse_pnm(b"P".iter().copied()).is_err());
     assert!(parse_pnm(b"".iter().copied()).is_err());
+    kani::cover!(true, "reached the end");
+}
+
+/// the plain-text bitmap magic P1 (unsupported today; a decoder may add it): well-formed
+/// and out-of-range-sample spellings must not panic; an Ok has the header's dimensions
+/// and w*h pixels
+#[kani::proof]
+#[kani::unwind(12)]
+fn c13_p1_total() {
+    for (hdr, w, h) in [(&b"P1 1 1\n0"[..], 1, 1), (&b"P1 1 1\n2"[..], 1, 1), (&b"P1 2 1\n1 255"[..], 2, 1)] {
+        if let Ok(img) = parse_pnm(hdr.iter().copied()) {
+            assert!(img.width() == w && img.height() == h && img.data().len() == (w * h) as usize);
+        }
+    }
     kani::cover!(true, "reached the end");
 }
 
